@@ -463,6 +463,7 @@ def run(ctx):
         "a node by its own coordinate (insert / create_initial_nodes / remap), Node.coordinate is rewritten only inside the contraction remap (M1); "
         "compaction removes nodes only when four would remain, re-trains with is_new_input=false and Network::update — evaluated over the flag — cannot "
         "reach grow_nodes without new input (M2); every assignment of the population phase moves strictly forward (M3).")
+    ctx.explanation += ' Every node storage is resized after the initial balancing (E1 extension); Node::mse never divides by a possibly-zero size (H1, sign analysis with expression-based value numbers for size observers).'
     ctx.not_decided = "finiteness of weights/errors, node capacity, lookup results, elite bounds (value-level)."
     ctx.run("C19-M1", "node map key == node.coordinate on every insertion; coordinate rewritten only in remap", m1_key_is_coordinate, floor=8)
     ctx.run("C19-H1", "per-node error never divides by a possibly-zero size (sign analysis)", h1_node_error_finite, floor=1)
